@@ -7,9 +7,11 @@ import (
 	"net/netip"
 	"os"
 	"runtime"
+	"sort"
 	"strings"
 	"sync"
 	"sync/atomic"
+	"syscall"
 	"testing/synctest"
 	"time"
 
@@ -425,18 +427,19 @@ func (cr *c09Run) run() {
 		if p := cr.prog.Load(); p != lastProg {
 			lastProg, lastChange = p, time.Now()
 		} else if time.Since(lastChange) > 25*time.Second {
-			buf := make([]byte, 1<<20)
-			dump := string(buf[:runtime.Stack(buf, true)])
-			if strings.Contains(dump, "sync.(*RWMutex)") || strings.Contains(dump, "sync.(*Mutex).Lock") {
-				c.Viol("deadlock:"+firstPacketFrame(dump), "no harness goroutine made progress for 25 s; goroutine dump:\n"+dump[:min(len(dump), 12000)], map[string]any{"index": cr.idx})
-			} else {
-				c.Inconclusive(fmt.Sprintf("run %d stalled without lock waiters", cr.idx))
-			}
-			cr.stop.Store(true)
-			st.rec.Close()
+			cr.stalled("no harness goroutine made progress for 25 s")
 			return
 		}
-		cr.gate.Lock()
+		// the barrier waits for the operations in flight; an operation that never returns (deadlock inside the library)
+		// must not take the monitor down with it
+		locked := make(chan struct{})
+		go func() { cr.gate.Lock(); close(locked) }()
+		select {
+		case <-locked:
+		case <-time.After(25 * time.Second):
+			cr.stalled("operations in flight did not return within 25 s of a barrier request")
+			return
+		}
 		if time.Since(t0) > 55*time.Second {
 			skipped++ // the session's own minute ticker is the only ungated table writer
 		} else {
@@ -512,6 +515,60 @@ func (cr *c09Run) run() {
 	c.Class(fmt.Sprintf("procs=%d api=%d yield=%s", procs, nAPI, strings.Join(yv, "")))
 	c.Sample(map[string]any{"run": cr.idx, "GOMAXPROCS": procs, "api_goroutines": nAPI, "yield_vector(point order " + strings.Join(points, ",") + ")": strings.Join(yv, ""),
 		"frames_handled": handled.Load(), "purges": purges.Load(), "barriers": barriers, "harness_ops": cr.prog.Load(), "history_ops": nh, "yield_points_with_overlap": overl})
+}
+
+// stalled decides between deadlock and slowness: a deadlock verdict needs at least two goroutines blocked on a lock inside
+// library code AND a process that burns no CPU over a 3 s window (nothing runnable that could release them); anything else
+// is inconclusive.
+func (cr *c09Run) stalled(why string) {
+	c := cr.c
+	cpu0 := processCPU()
+	time.Sleep(3 * time.Second)
+	cpu := processCPU() - cpu0
+	buf := make([]byte, 4<<20)
+	dump := string(buf[:runtime.Stack(buf, true)])
+	var blocked, nested []string
+	for _, g := range strings.Split(dump, "\n\n") {
+		hdr := strings.SplitN(g, "\n", 2)[0]
+		if (strings.Contains(hdr, "sync.Mutex.Lock") || strings.Contains(hdr, "sync.RWMutex")) && strings.Contains(g, "github.com/irai/packet") {
+			blocked = append(blocked, firstPacketFrame(g))
+			// a goroutine blocked two or more library frames deep may hold another library lock: candidates for the cycle
+			depth := 0
+			for _, l := range strings.Split(g, "\n") {
+				if strings.HasPrefix(l, "github.com/irai/packet") {
+					depth++
+				}
+			}
+			if depth >= 2 {
+				nested = append(nested, firstPacketFrame(g))
+			}
+		}
+	}
+	sort.Strings(blocked)
+	var uniq []string
+	keyed := blocked
+	if len(nested) > 0 {
+		sort.Strings(nested)
+		keyed = nested
+	}
+	for _, b := range keyed {
+		if len(uniq) == 0 || uniq[len(uniq)-1] != b {
+			uniq = append(uniq, b)
+		}
+	}
+	if len(blocked) >= 2 && cpu < 300*time.Millisecond {
+		c.Viol("deadlock:"+strings.Join(uniq, "|"), fmt.Sprintf("%s; %d goroutines blocked on locks inside the library, process used %v CPU in 3 s; goroutine dump:\n%s", why, len(blocked), cpu, dump[:min(len(dump), 16000)]), map[string]any{"index": cr.idx})
+	} else {
+		c.Inconclusive(fmt.Sprintf("run %d stalled (%s) but blocked=%d cpu=%v", cr.idx, why, len(blocked), cpu))
+	}
+	cr.stop.Store(true)
+	cr.st.rec.Close()
+}
+
+func processCPU() time.Duration {
+	var ru syscall.Rusage
+	syscall.Getrusage(syscall.RUSAGE_SELF, &ru)
+	return time.Duration(ru.Utime.Nano() + ru.Stime.Nano())
 }
 
 func firstPacketFrame(dump string) string {
